@@ -1037,6 +1037,7 @@ class Summarizer:
         depth = len(st.frames)
         ends = {}
         self._in_clamp = True
+        n_loops = len(self.loop_records)
         try:
             for b in (True, False):
                 s2 = st.copy()
@@ -1065,6 +1066,8 @@ class Summarizer:
                 ends[b] = s2
         finally:
             self._in_clamp = False
+            if len(ends) < 2:
+                del self.loop_records[n_loops:]     # a speculative arm that is given up leaves no loop record behind
         sT, sF = ends[True], ends[False]
         base = len(st.guard)
         if len(sT.guard) != base + 1 or len(sF.guard) != base + 1:
